@@ -1,5 +1,6 @@
 (* Props/C17.v — Plans survive being saved and reloaded.  Statements only. *)
 From RN Require Import Base.Bytes Model.SerdeAttr Gen.GenSerde Model.Serde Proofs.SerdeP.
+From RN Require Import Model.JsonText Proofs.JsonTextP.
 
 (* every plan value (any hunks, any renames, empty replacement, any byte strings) is read back
    exactly as it was written, under the serde attributes found in the current source *)
@@ -23,6 +24,28 @@ Theorem C17_history_entry_never_skips :
   forallb (fun a => match fa_skip a with SkNever => true | _ => false end) gen_historyentry = true.
 Proof. vm_compute. reflexivity. Qed.
 
+(* THE TEXT LAYER (Model/JsonText.v: serde_json's pretty and compact printers and its parser restated; tied byte for byte to the
+   real serde_json by lib/jsontext_difftest.py): every JSON value whose numbers fit u64 and whose nesting is at most 127 - the two
+   limits are serde_json's own (wf_json_number_needed, wf_json_depth_needed in Proofs/JsonTextP.v) - is parsed back from either
+   text; strings and keys are arbitrary byte lists; no fuel hypothesis *)
+Theorem C17_text_roundtrip_pretty : forall j, wf_json j -> parse (print_pretty j) = Some j.
+Proof. exact parse_print_pretty. Qed.
+Theorem C17_text_roundtrip_compact : forall j, wf_json j -> parse (print_compact j) = Some j.
+Proof. exact parse_print_compact. Qed.
+
+(* THE PLAN FILE: save_plan p = to_string_pretty(&plan), load_plan = from_str::<Plan>: every plan whose integer fields fit u64
+   (all Rust plans: the fields are u64 / usize / u32) is read back from its file exactly as it was written *)
+Theorem C17_plan_file_roundtrip : forall p : plan, plan_u64 p -> load_plan (save_plan p) = Some p.
+Proof. exact JsonTextP.C17_plan_file_roundtrip. Qed.
+Theorem C17_plan_file_apply_same :
+  forall (A : Type) (run : plan -> A) (p p' : plan),
+    plan_u64 p -> load_plan (save_plan p) = Some p' -> run p' = run p.
+Proof. exact JsonTextP.C17_plan_file_apply_same. Qed.
+
+Print Assumptions C17_text_roundtrip_pretty.
+Print Assumptions C17_text_roundtrip_compact.
+Print Assumptions C17_plan_file_roundtrip.
+Print Assumptions C17_plan_file_apply_same.
 Print Assumptions C17_plan_roundtrip.
 Print Assumptions C17_apply_same.
 Print Assumptions C17_hunk_roundtrip.
